@@ -184,24 +184,35 @@ def statics_table(model, rep, robot, rule):
         rep.ob(rule, fi, '%s: %s(%s(...).T) @ %s' % (name, 'pinv' if inverse else '', jac, arg), ok, msg)
 
 
-def check(model, rep):
-    rep.extra['explanation'] = (
-        'Typestate for the freshness of the body screw list over all histories, plus structural pairing rules: which screw '
-        'list feeds which Jacobian kernel, the statics 2x2 sibling table of Robot, the change-of-frame factors of the link / '
-        'tool-aligned variants, and index agreement and accumulation counting in the link-mass statics.')
-    rep.assumptions.append('JacobianSpace / JacobianBody / Adjoint are as decided under C01/C02')
-    ck = ArmChecker(model)
+def jacobian_link_rule(model, rep, rule, arm=None):
+    """jacobianLink(i, theta) = hstack(Ad(inv(FKLink(theta, i))) @ JacobianSpace(space screws[:, :i+1], theta[:i+1]), zeros) - computed from its
+    arguments on every call (shared by C06 R06.2 and C08 R08.2: the mass matrix is the congruence sum over these link Jacobians)."""
+    arm = arm or ArmChecker(model).arm
+    jl = arm.methods.get('jacobianLink')
+    if jl is None:
+        raise AnalysisError('anchor vanished: Arm.jacobianLink')
+    ip, tp = jl.params[1], jl.params[2]
+    # with the class's private helpers inlined (the prefix slices may come from a helper); FKLink stays a call
+    from ..engine import peval as _pe2
+    jl_flat = _pe2.flatten({n_: f_.node for n_, f_ in arm.methods.items()}, jl.node, depth=2, stop=('_helper_ensure_theta_not_none',), impure=True)
+    il = Inliner(jl, node=jl_flat)
+    r = il.returns()
+    A_ = 'self.FKLink(%s, %s).inv().adjoint()' % (tp, ip)
+    J_ = 'fmr.JacobianSpace(self.screw_list[0:6, 0:%s + 1], %s[0:%s + 1])' % (ip, tp, ip)
+    Z_ = 'np.zeros((6, len(%s) - (%s + 1)))' % (tp, ip)
+    want = ['np.hstack((%s @ %s, %s))' % (A_, J_, Z_), 'np.concatenate((%s @ %s, %s), axis=1)' % (A_, J_, Z_), 'np.c_[%s @ %s, %s]' % (A_, J_, Z_)]
+    ok = len(r) == 1 and il.same(r[0].value, want)
+    rep.ob(rule, jl, 'Ad(inv(FKLink(theta, i))) @ JacobianSpace(prefix i+1) | zeros', ok,
+           'jacobianLink returns %s; expected hstack(Ad(inv(FKLink(theta,i))) @ JacobianSpace(prefix i+1), zero padding)' % (il.text(r[0].value)[:260] if r else '?'))
+
+
+def body_screw_freshness(model, rep, rule, ck=None):
+    """R06.1 (shared with C05): on every path of every public Arm method the body screw list is re-derived after the last write of the home
+    pose / the space screws."""
+    ck = ck or ArmChecker(model)
     arm = ck.arm
-    robot = model.cls(ROBOT, 'Robot')
-
-    def M(ci, name):
-        f = ci.methods.get(name)
-        if f is None:
-            raise AnalysisError('anchor vanished: %s.%s' % (ci.name, name))
-        return f
-
     # ---------------------------------------------------------------- R06.1
-    rep.rule('R06.1', 'body screws re-derived after the last write of home pose / space screws on every path of every public method')
+    rep.rule(rule, 'body screws re-derived after the last write of home pose / space screws on every path of every public method')
     res, writers = ck.exit_marks('body')
     n = 0
     # which methods reach (through any chain of self-calls) a method that writes the home pose / the space or body screws
@@ -229,12 +240,32 @@ def check(model, rep):
         n += 1
         if bad:
             for text, (line, ex) in sorted(bad.items()):
-                rep.ob('R06.1', fi, text, False,
+                rep.ob(rule, fi, text, False,
                        'write (line %s) reaches %s with the body screw list not re-derived: jacobianBody() belongs to the previous '
                        'kinematic model' % (line, ex), line=line)
         else:
-            rep.ob('R06.1', fi, 'home/screw writes of %s' % fi.name, True, 'body screws fresh on all %d normal exits' % n_exits)
-    rep.floor('R06.1', 'methods reaching a home/screw write', n, 4)
+            rep.ob(rule, fi, 'home/screw writes of %s' % fi.name, True, 'body screws fresh on all %d normal exits' % n_exits)
+    rep.floor(rule, 'methods reaching a home/screw write', n, 4)
+
+
+
+def check(model, rep):
+    rep.extra['explanation'] = (
+        'Typestate for the freshness of the body screw list over all histories, plus structural pairing rules: which screw '
+        'list feeds which Jacobian kernel, the statics 2x2 sibling table of Robot, the change-of-frame factors of the link / '
+        'tool-aligned variants, and index agreement and accumulation counting in the link-mass statics.')
+    rep.assumptions.append('JacobianSpace / JacobianBody / Adjoint are as decided under C01/C02')
+    ck = ArmChecker(model)
+    arm = ck.arm
+    robot = model.cls(ROBOT, 'Robot')
+
+    def M(ci, name):
+        f = ci.methods.get(name)
+        if f is None:
+            raise AnalysisError('anchor vanished: %s.%s' % (ci.name, name))
+        return f
+
+    body_screw_freshness(model, rep, 'R06.1', ck)
 
     # ---------------------------------------------------------------- R06.2
     rep.rule('R06.2', 'each Jacobian variant is built from the screw list of its own frame with the documented change of frame')
@@ -247,20 +278,7 @@ def check(model, rep):
     ok = len(r) == 1 and is_call(r[0].value, 'JacobianBody') and [src(a) for a in r[0].value.args] == ['self.screw_list_body', jb.params[1]]
     rep.ob('R06.2', jb, 'JacobianBody(self.screw_list_body, theta)', ok,
            'body Jacobian is not built from the BODY screws: ' + (src(r[0].value) if r else '?'))
-    jl = M(arm, 'jacobianLink')
-    ip, tp = jl.params[1], jl.params[2]
-    # with the class's private helpers inlined (the prefix slices may come from a helper); FKLink stays a call
-    from ..engine import peval as _pe2
-    jl_flat = _pe2.flatten({n_: f_.node for n_, f_ in arm.methods.items()}, jl.node, depth=2, stop=('_helper_ensure_theta_not_none',), impure=True)
-    il = Inliner(jl, node=jl_flat)
-    r = il.returns()
-    A_ = 'self.FKLink(%s, %s).inv().adjoint()' % (tp, ip)
-    J_ = 'fmr.JacobianSpace(self.screw_list[0:6, 0:%s + 1], %s[0:%s + 1])' % (ip, tp, ip)
-    Z_ = 'np.zeros((6, len(%s) - (%s + 1)))' % (tp, ip)
-    want = ['np.hstack((%s @ %s, %s))' % (A_, J_, Z_), 'np.concatenate((%s @ %s, %s), axis=1)' % (A_, J_, Z_), 'np.c_[%s @ %s, %s]' % (A_, J_, Z_)]
-    ok = len(r) == 1 and il.same(r[0].value, want)
-    rep.ob('R06.2', jl, 'Ad(inv(FKLink(theta, i))) @ JacobianSpace(prefix i+1) | zeros', ok,
-           'jacobianLink returns %s; expected hstack(Ad(inv(FKLink(theta,i))) @ JacobianSpace(prefix i+1), zero padding)' % (il.text(r[0].value)[:260] if r else '?'))
+    jacobian_link_rule(model, rep, 'R06.2', arm)
     je = M(arm, 'jacobianEETrans')
     il = Inliner(je)
     r = il.returns()
